@@ -93,7 +93,10 @@ func run(tapeJSON json.RawMessage, res *core.Result) {
 	kpPhase := tp.Phase == "kpasswd"
 	simsync.Passive = true
 	gk.Seed(tp.RunSeed)
-	kdc := refkdc.New("SIM.TEST", tp.RunSeed, refkdc.Policy{})
+	kdc := refkdc.New("SIM.TEST", tp.RunSeed, refkdc.Policy{TicketAuthDataPad: tp.BigTkt})
+	if tp.BigTkt > 0 {
+		res.Probes["large-reply"]++
+	}
 	if kpPhase {
 		kdc.AddPasswordUser("alice", oldPassword, "", 0)
 	} else {
@@ -177,6 +180,12 @@ func run(tapeJSON json.RawMessage, res *core.Result) {
 		if tp.Phase == "tgs" {
 			// log in over a healthy network first, then let the faults in
 			if err := cl.Login(); err != nil {
+				if tp.BigTkt > 0 {
+					// every configured KDC answers correctly over every transport: the size of the
+					// answer is the only thing out of the ordinary
+					engine.Violate(res, "answer-not-returned|all-endpoints-answer|large-reply|"+tp.Limit, map[string]interface{}{"err": err.Error(), "ticket_authdata_bytes": tp.BigTkt})
+					return
+				}
 				res.Verdict, res.Harness = "harness-error", "healthy login failed: "+err.Error()
 				return
 			}
@@ -425,7 +434,12 @@ func run(tapeJSON json.RawMessage, res *core.Result) {
 		if panicMsg != "" {
 			kind = "panic"
 		}
-		engine.Violate(res, kind+"|"+tp.Limit+"|"+pattern, d)
+		if tp.BigTkt > 0 && kind == "must-succeed-but-failed" {
+			// the shape of the endpoint assignment matters less than the size of the answer
+			engine.Violate(res, kind+"|"+tp.Limit+"|large-reply", d)
+		} else {
+			engine.Violate(res, kind+"|"+tp.Limit+"|"+pattern, d)
+		}
 	}
 	if kpPhase {
 		// "returns that answer": success is reported only for a change that a server applied
